@@ -480,6 +480,16 @@ func toGenericRunnable[I, O any](cr *composableRunnable, ctxWrapper func(ctx con
 func inputKeyedComposableRunnable(key string, r *composableRunnable) *composableRunnable {
 	wrapper := *r
 	wrapper.genericHelper = wrapper.genericHelper.forMapInput()
+	if inner := r.genericHelper; inner != nil && inner.inputZeroValue != nil && inner.inputEmptyStream != nil {
+		// the placeholder input of a node that is resumed from a checkpoint (a nested graph that was
+		// interrupted, a node that asked to be re-run) has to carry the key, as every real input does
+		wrapper.genericHelper.inputZeroValue = func() any {
+			return map[string]any{key: inner.inputZeroValue()}
+		}
+		wrapper.genericHelper.inputEmptyStream = func() streamReader {
+			return inner.inputEmptyStream().withKey(key)
+		}
+	}
 	i := r.i
 	wrapper.i = func(ctx context.Context, input any, opts ...any) (output any, err error) {
 		v, ok := input.(map[string]any)[key]
